@@ -1,7 +1,514 @@
 /-
-  Property C04 — theorems about QEModel.C04 (stub; to be filled in).
+  Property C04 — linprog_simplex / minmax: theorems about `QEModel/C04.lean`
+  (the definitions the driver `qedriver_c04` executes) and `QEModel/Pivot.lean`.
+
+  Reading guide.  A tableau `T` has `L` constraint rows `0..L-1`, the criterion row `L`,
+  `N` variable columns and the right-hand side in column `N` (`Shape T L N`).  Row `i`
+  is the equation `Σ_{j<N} T[i,j] z_j = T[i,N]` (`RowSat`, `RowsSat`); the objective of
+  the tableau at `z` is `resid T z L = Σ_{j<N} T[L,j] z_j − T[L,N]`  (the code reports
+  `fun = −T[L,N]`).  `Canon T b L N`: column `basis[i]` is the unit vector `e_i`.
+  `bsol T b L N` is the basic solution (what `get_solution` reads, `getX_eq_bsol`).
+  All theorems are over an arbitrary linearly ordered field, in exact arithmetic with the
+  three tolerances equal to `0` (`tol0`) — on the property's well-scaled domain the
+  tolerances cannot change a decision; the correspondence run checks exactly that.
 -/
 import QEModel.C04
+import QEProofs.Lemmas.PivotLemmas
+import QEProofs.Lemmas.C04Ratio
+import QEProofs.Lemmas.C04Simplex
+import QEProofs.Lemmas.C04Phase1
+import QEProofs.Lemmas.C04Final
+import QEProofs.Lemmas.C04DualCert
+import QEProofs.Lemmas.C04Unbounded
+import QEProofs.Lemmas.C04Minmax
+import QEProofs.Lemmas.C04Tol
+import QEProofs.Lemmas.C04Farkas
+import QEProofs.Lemmas.C04Iters
+import QEProofs.Lemmas.C04Ray
+import QEProofs.Lemmas.C04MinmaxTie
+import QEProofs.Lemmas.C04Mono
+import Mathlib.Algebra.Order.Field.Rat
 namespace QE.C04
+open QE QE.Pivot Finset
+
+variable {K : Type} [Field K] [LinearOrder K] [IsStrictOrderedRing K]
+
+/-! ## the pivot (`_pivoting`) -/
+
+omit [IsStrictOrderedRing K] in
+/-- **T1 pivot_preserves_solutions.** A pivot on a non-zero element of a constraint row is
+    an invertible row operation: the constraint rows have the same solution set, and on that
+    set the criterion row defines the same objective function. -/
+theorem pivot_preserves_solutions (T : M K) (L N c r : ℕ) (hs : Shape T L N) (hr : r < L)
+    (hp : T.get r c ≠ 0) (z : ℕ → K) :
+    (RowsSat (pivot T c r) z L ↔ RowsSat T z L) ∧
+    (RowsSat T z L → resid (pivot T c r) z L = resid T z L) := by
+  refine ⟨solset_pivot T T L N c r hs hr hp (fun _ => Iff.rfl) z, fun h => ?_⟩
+  exact obj_pivot T T L N c r hs hr hp (fun _ _ => rfl) z
+    ((solset_pivot T T L N c r hs hr hp (fun _ => Iff.rfl) z).mpr h)
+
+omit [IsStrictOrderedRing K] in
+/-- **T1 pivot_canonical.** After `_pivoting(T, c, r); basis[r] = c` the basic columns are
+    again unit vectors (over all rows including the criterion row). -/
+theorem pivot_canonical (T : M K) (b : List ℕ) (L N c r : ℕ) (hs : Shape T L N)
+    (hc : Canon T b L N) (hcN : c < N) (hr : r < L) (hp : T.get r c ≠ 0) :
+    Canon (pivot T c r) (b.set r c) L N :=
+  canon_pivot T b L N c r hs hc hcN hr hp
+
+/-- **T1 ratio_test_keeps_rhs_nonneg.** If `_lex_min_ratio_test` (tolerances 0) on the
+    constraint rows returns `(True, r)` for column `c`, then `r` is a constraint row with a
+    positive entry and the pivot keeps every right-hand side non-negative. -/
+theorem ratio_test_keeps_rhs_nonneg (T : M K) (L N c ss r : ℕ) (hs : Shape T L N)
+    (hrhs : RhsNonneg T L N) (h : lexMinRatio (dropLast T) c ss (0 : K) 0 = (true, r)) :
+    r < L ∧ 0 < T.get r c ∧ RhsNonneg (pivot T c r) L N := by
+  have hL : T.nr - 1 = L := by rw [hs.1]; rfl
+  have hN : T.nc - 1 = N := by rw [hs.2]; rfl
+  obtain ⟨g1, g2, g3⟩ := lexMinRatio_found (dropLast T) c ss 0 r h
+  simp only [dropLast_nr, dropLast_nc, dropLast_get, hL, hN] at g1 g2 g3
+  exact ⟨g1, g2, rhs_pivot T L N c r hs hrhs g1 g2 g3⟩
+
+/-! ## the simplex loop (`solve_tableau`) -/
+
+/-- **T1 solveTableau_invariant.** Started from a canonical tableau with non-negative
+    right-hand sides, `solve_tableau` returns — for every `max_iter`, every size, whatever the
+    exit status — a canonical tableau with non-negative right-hand sides whose constraint rows
+    have the solution set of the initial rows and whose criterion row defines the initial
+    objective on that set. -/
+theorem solveTableau_invariant (skip : Bool) (fuel : ℕ) (T0 : M K) (b0 : List ℕ) (L N : ℕ)
+    (hs : Shape T0 L N) (hc : Canon T0 b0 L N) (hr : RhsNonneg T0 L N) :
+    let r := solveTableau tol0 skip fuel T0 b0
+    Shape r.T L N ∧ Canon r.T r.basis L N ∧ RhsNonneg r.T L N ∧
+    (∀ z, RowsSat r.T z L ↔ RowsSat T0 z L) ∧
+    (∀ z, RowsSat r.T z L → resid r.T z L = resid T0 z L) := by
+  intro r
+  have h := solveTableau_inv0 skip fuel T0 b0 L N hs hc hr
+  exact ⟨h.shape, h.canon, h.rhs, h.sol, h.obj⟩
+
+/-- **T1 status0_optimal (tableau level).** If `solve_tableau` exits with status 0, the basic
+    solution `z*` of the final tableau is non-negative, satisfies the *initial* rows, has
+    objective `−T[L,N]` (the reported `fun`) and maximises the initial objective over all
+    non-negative solutions of the initial rows (with `skip_aux`: over those that vanish on the
+    `L` artificial columns). -/
+theorem solveTableau_status0_optimal (skip : Bool) (fuel : ℕ) (T0 : M K) (b0 : List ℕ) (L N : ℕ)
+    (hs : Shape T0 L N) (hc : Canon T0 b0 L N) (hr : RhsNonneg T0 L N)
+    (h0 : (solveTableau tol0 skip fuel T0 b0).status = 0) :
+    let r := solveTableau tol0 skip fuel T0 b0
+    let zs := bsol r.T r.basis L N
+    (∀ j, 0 ≤ zs j) ∧ RowsSat T0 zs L ∧ resid T0 zs L = - r.T.get L N ∧
+    ∀ z : ℕ → K, (∀ j, j < N → 0 ≤ z j) → RowsSat T0 z L →
+      (skip = true → ∀ j, N - L ≤ j → j < N → z j = 0) → resid T0 z L ≤ resid T0 zs L := by
+  intro r zs
+  exact inv0_optimal skip T0 L N r.T r.basis (solveTableau_inv0 skip fuel T0 b0 L N hs hc hr)
+    (solveTableau_status0 tol0 skip fuel T0 b0 h0)
+
+/-- **T1 status3_unbounded_partial (tableau level).** If `solve_tableau` exits with status 3
+    there is an entering column `c` with positive reduced cost in the final tableau and the
+    ratio test found no row; then either column `c` has no positive entry — and
+    `z* + t·d` (`d = rayDir`) is, for every `t ≥ 0`, a non-negative solution of the initial
+    rows with objective `−T[L,N] + t·T[L,c]`, unbounded above — or the first pass of the ratio
+    test ended in a tie of at least two rows that the lexicographic passes did not resolve.
+    *Partial* for an arbitrary start tableau `T0`: the second alternative is excluded only
+    when the rows are combinations of initial rows with an identity block in the
+    lexicographic columns — which holds for every tableau of `linprog_simplex`
+    (`ratio_test_complete`), giving the unconditional `status3_unbounded` below. -/
+theorem solveTableau_status3_unbounded_partial (skip : Bool) (fuel : ℕ) (T0 : M K) (b0 : List ℕ)
+    (L N : ℕ) (hs : Shape T0 L N) (hc : Canon T0 b0 L N) (hr : RhsNonneg T0 L N)
+    (h3 : (solveTableau tol0 skip fuel T0 b0).status = 3) :
+    let r := solveTableau tol0 skip fuel T0 b0
+    ∃ c, c < N - (if skip then L else 0) ∧ 0 < r.T.get L c ∧
+      (((∀ i, i < L → r.T.get i c ≤ 0) ∧
+        ∀ t : K, 0 ≤ t →
+          (∀ j, 0 ≤ bsol r.T r.basis L N j + t * rayDir r.T r.basis L c j) ∧
+          RowsSat T0 (fun j => bsol r.T r.basis L N j + t * rayDir r.T r.basis L c j) L ∧
+          resid T0 (fun j => bsol r.T r.basis L N j + t * rayDir r.T r.basis L c j) L
+            = - r.T.get L N + t * r.T.get L c)
+      ∨ 2 ≤ (minRatioNoTie (dropLast r.T) c N (List.range L) (0 : K) 0).length) := by
+  intro r
+  have hinv := solveTableau_inv0 skip fuel T0 b0 L N hs hc hr
+  obtain ⟨c, hpc, hnf⟩ := solveTableau_status3 (tol0 : Tol K) skip fuel T0 b0 h3
+  have hL : r.T.nr - 1 = L := by rw [hinv.shape.1]; rfl
+  have hN : r.T.nc - 1 = N := by rw [hinv.shape.2]; rfl
+  obtain ⟨h1, h2, _⟩ := pivotCol_some r.T skip (tol0 : Tol K).fea c hpc
+  rw [hL, hN] at h1
+  rw [hL] at h2
+  refine ⟨c, h1, h2, ?_⟩
+  rcases lexMinRatio_not_found (dropLast r.T) c _ _ _ hnf with hcol | htie
+  · left
+    simp only [dropLast_nr, dropLast_get, hL] at hcol
+    exact ⟨hcol, inv0_ray T0 L N r.T r.basis c hinv (by omega) h2 hcol⟩
+  · right
+    simp only [dropLast_nr, dropLast_nc, hL, hN] at htie
+    exact htie
+
+omit [IsStrictOrderedRing K] in
+/-- **T2 solveTableau_invariant_tolerances.** With the code's *positive* tolerances (any
+    `fea_tol`, any `tol_ratio_diff`, `tol_piv ≥ 0`; exact arithmetic) every pivot element is
+    `> tol_piv ≥ 0`, so along the whole run — every `max_iter`, every exit status — the tableau
+    stays canonical, its rows keep the solution set of the initial rows and its criterion row
+    keeps the initial objective on that set. -/
+theorem solveTableau_invariant_tolerances (tol : Tol K) (hpiv : 0 ≤ tol.piv) (skip : Bool)
+    (fuel : ℕ) (T0 : M K) (b0 : List ℕ) (L N : ℕ) (hs : Shape T0 L N) (hc : Canon T0 b0 L N) :
+    let r := solveTableau tol skip fuel T0 b0
+    Shape r.T L N ∧ Canon r.T r.basis L N ∧ (∀ z, RowsSat r.T z L ↔ RowsSat T0 z L) ∧
+    (∀ z, RowsSat r.T z L → resid r.T z L = resid T0 z L) := by
+  intro r
+  have h := solveTableau_invT tol hpiv skip fuel T0 b0 L N hs hc
+  exact ⟨h.shape, h.canon, h.sol, h.obj⟩
+
+/-- **T2 status0_fea_tol_optimal.** With arbitrary tolerances (`tol_piv ≥ 0`), status 0 of
+    `solve_tableau` (all columns scanned) means: the basic solution satisfies the initial rows
+    exactly, its objective is `−T[L,N]`, and every non-negative solution `z` of the initial rows
+    has objective at most `−T[L,N] + fea_tol·Σ_j z_j`. -/
+theorem status0_fea_tol_optimal (tol : Tol K) (hpiv : 0 ≤ tol.piv) (fuel : ℕ) (T0 : M K)
+    (b0 : List ℕ) (L N : ℕ) (hs : Shape T0 L N) (hc : Canon T0 b0 L N)
+    (h0 : (solveTableau tol false fuel T0 b0).status = 0) :
+    let r := solveTableau tol false fuel T0 b0
+    RowsSat T0 (bsol r.T r.basis L N) L ∧ resid T0 (bsol r.T r.basis L N) L = - r.T.get L N ∧
+    ∀ z : ℕ → K, (∀ j, j < N → 0 ≤ z j) → RowsSat T0 z L →
+      resid T0 z L ≤ - r.T.get L N + tol.fea * ∑ j ∈ range N, z j :=
+  solveTableau_status0_tol tol hpiv fuel T0 b0 L N hs hc h0
+
+/-- **objective_monotone.** Along `solve_tableau` the reported objective `−T[L,N]` never
+    decreases (each pivot adds `(T[r,N]/T[r,c])·T[L,c] ≥ 0`). -/
+theorem objective_monotone (skip : Bool) (fuel : ℕ) (T0 : M K) (b0 : List ℕ) (L N : ℕ)
+    (hs : Shape T0 L N) (hc : Canon T0 b0 L N) (hr : RhsNonneg T0 L N) :
+    - T0.get L N ≤ - (solveTableau tol0 skip fuel T0 b0).T.get L N :=
+  neg_le_neg (solveTableau_objective_monotone skip fuel T0 b0 L N hs hc hr)
+
+omit [LinearOrder K] [IsStrictOrderedRing K] in
+/-- **basis_determines_solution.** Two canonical tableaux with the same basis and row-equivalent
+    constraint rows have the same right-hand sides and the same basic solution (and the same
+    objective value if their criterion rows agree on the solution set): the vertex — and the
+    reported `x`, `fun` — depend only on the final basis, not on the pivot path. -/
+theorem basis_determines_solution (T T' : M K) (b : List ℕ) (L N : ℕ)
+    (hs : Shape T L N) (hs' : Shape T' L N) (hc : Canon T b L N) (hc' : Canon T' b L N)
+    (hsol : ∀ z, RowsSat T z L ↔ RowsSat T' z L) :
+    (∀ i, i < L → T.get i N = T'.get i N) ∧ (∀ j, bsol T b L N j = bsol T' b L N j) ∧
+    ((∀ z, RowsSat T z L → resid T z L = resid T' z L) → T.get L N = T'.get L N) :=
+  basis_determines_vertex T T' b L N hs hs' hc hc' hsol
+
+/-! ## `linprog_simplex` -/
+
+omit [IsStrictOrderedRing K] in
+/-- the exit status of `linprog_simplex` is one of 0, 1, 2, 3 -/
+theorem linprog_status_range (P : LP K) (fuel : ℕ) (tol : Tol K) :
+    (linprogSimplex P fuel tol).status ∈ [0, 1, 2, 3] := by
+  rw [linprogSimplex_status]
+  split_ifs with h
+  · rcases solvePhase1_cases tol fuel (initTableau P) (initBasis P) with ⟨_, e⟩ | ⟨_, _, e⟩ | ⟨h1, _, e⟩
+    · simp only [e]
+      rcases solveTableau_status tol false fuel (initTableau P) (initBasis P) with s | s | s <;>
+        simp [s]
+    · simp [e]
+    · exfalso; apply h; rw [e, cleanup_status, h1]
+  · rcases solveTableau_status tol true (fuel - (solvePhase1 tol fuel (initTableau P) (initBasis P)).iters)
+      (setCriterionRow P.c P.n (solvePhase1 tol fuel (initTableau P) (initBasis P)).basis
+        (solvePhase1 tol fuel (initTableau P) (initBasis P)).T)
+      (solvePhase1 tol fuel (initTableau P) (initBasis P)).basis with s | s | s <;> simp [s]
+
+/-- **T1 cleanup_sound.** When Phase 1 succeeds, the tableau handed to Phase 2 (after the
+    artificial clean-up loop) is canonical with non-negative right-hand sides, its rows have
+    the solution set of the initial rows, and every row whose artificial variable is still
+    basic is identically zero on the `n+m` non-artificial columns and on the right-hand side —
+    so Phase 2 (which never enters an artificial column) never moves it. -/
+theorem cleanup_sound (P : LP K) (fuel : ℕ)
+    (h : (solvePhase1 tol0 fuel (initTableau P) (initBasis P)).status = 0) :
+    let r1 := solvePhase1 tol0 fuel (initTableau P) (initBasis P)
+    let L := P.m + P.k
+    let N := P.n + P.m + (P.m + P.k)
+    Shape r1.T L N ∧ Canon r1.T r1.basis L N ∧ RhsNonneg r1.T L N ∧
+    (∀ z, RowsSat r1.T z L ↔ RowsSat (initTableau P) z L) ∧
+    ∀ i, i < L → P.n + P.m ≤ r1.basis.getD i 0 →
+      r1.T.get i N = 0 ∧ ∀ j, j < P.n + P.m → r1.T.get i j = 0 := by
+  intro r1 L N
+  have I := solvePhase1_success P fuel h
+  exact ⟨I.shape, I.canon, I.rhs, I.sol, fun i hi hai => ⟨(I.zero i hi hai).1, (I.zero i hi hai).2 hi⟩⟩
+
+omit [LinearOrder K] [IsStrictOrderedRing K] in
+/-- **T1 set_criterion_row_sound.** On a canonical tableau `_set_criterion_row` leaves the
+    constraint rows alone, restores canonical form (criterion row zero on the basic columns)
+    and the new criterion row represents `c·x` on the solutions of the rows. -/
+theorem set_criterion_row_sound (c : ℕ → K) (n : ℕ) (b : List ℕ) (T : M K) (L N : ℕ)
+    (hs : Shape T L N) (hc : Canon T b L N) (hn : n ≤ N) :
+    Canon (setCriterionRow c n b T) b L N ∧
+    (∀ z, RowsSat (setCriterionRow c n b T) z L ↔ RowsSat T z L) ∧
+    ∀ z, RowsSat (setCriterionRow c n b T) z L →
+      resid (setCriterionRow c n b T) z L = ∑ j ∈ range n, c j * z j :=
+  ⟨(setCriterionRow_spec c n b T L N hs hc hn).1, setCriterionRow_rowsSat c n b T L N hs,
+    (setCriterionRow_spec c n b T L N hs hc hn).2⟩
+
+/-- **T1 status0_optimal.** If `linprog_simplex` (exact arithmetic) reports status 0, the
+    returned `x` is feasible (`x ≥ 0`, `A_ub x ≤ b_ub`, `A_eq x = b_eq`), the returned `fun`
+    is `c·x`, and no feasible point has a larger objective — for every LP (any sizes, signs of
+    `b`, degenerate vertices, redundant equalities) and every `max_iter`. -/
+theorem status0_optimal (P : LP K) (fuel : ℕ) (h : (linprogSimplex P fuel tol0).status = 0) :
+    let x := fun j => (linprogSimplex P fuel (tol0 : Tol K)).x.getD j 0
+    Feasible P x ∧ (linprogSimplex P fuel (tol0 : Tol K)).fn = some (objective P x) ∧
+      ∀ x', Feasible P x' → objective P x' ≤ objective P x :=
+  linprog_status0_core P fuel h
+
+/-- **T2 dual_certificate.** If `linprog_simplex` (exact arithmetic) reports status 0, the
+    returned `lambd` (criterion-row entries of the artificial columns with the `b_signs` sign
+    repair) is dual feasible — non-negative on the inequality rows, `A_ubᵀλ_ub + A_eqᵀλ_eq ≥ c` —
+    and `b·λ` equals the returned `fun`. -/
+theorem dual_certificate (P : LP K) (fuel : ℕ) (h : (linprogSimplex P fuel tol0).status = 0) :
+    let lam := fun i => (linprogSimplex P fuel (tol0 : Tol K)).lambd.getD i 0
+    DualFeasible P lam ∧ (linprogSimplex P fuel (tol0 : Tol K)).fn = some (dualObjective P lam) :=
+  linprog_dual_core P fuel h
+
+/-- **weak duality** (what makes the pair a certificate): a primal feasible `x` and a dual
+    feasible `λ` satisfy `c·x ≤ b·λ`; hence `c·x = b·λ` proves both optimal. -/
+theorem primal_dual_certifies (P : LP K) (x lam : ℕ → K) (hx : Feasible P x)
+    (hl : DualFeasible P lam) (heq : objective P x = dualObjective P lam) :
+    (∀ x', Feasible P x' → objective P x' ≤ objective P x) ∧
+    (∀ lam', DualFeasible P lam' → dualObjective P lam ≤ dualObjective P lam') :=
+  ⟨fun x' hx' => by rw [heq]; exact weak_duality P x' lam hx' hl,
+   fun lam' hl' => by rw [← heq]; exact weak_duality P x lam' hx hl'⟩
+
+/-- **success ⇒ certified optimal primal-dual pair** (the property's success clause):
+    `x` primal feasible, `lambd` dual feasible, `c·x = fun = b·lambd`. -/
+theorem status0_certified_pair (P : LP K) (fuel : ℕ) (h : (linprogSimplex P fuel tol0).status = 0) :
+    let res := linprogSimplex P fuel (tol0 : Tol K)
+    let x := fun j => res.x.getD j 0
+    let lam := fun i => res.lambd.getD i 0
+    Feasible P x ∧ DualFeasible P lam ∧ res.fn = some (objective P x) ∧
+      objective P x = dualObjective P lam := by
+  intro res x lam
+  obtain ⟨hf, hfx, _⟩ := status0_optimal P fuel h
+  obtain ⟨hd, hfl⟩ := dual_certificate P fuel h
+  refine ⟨hf, hd, hfx, ?_⟩
+  have := hfx.symm.trans hfl
+  exact Option.some.inj this
+
+/-- **T1 status2_infeasible.** If `linprog_simplex` (exact arithmetic) reports status 2, the
+    program has no feasible point: no `x ≥ 0` with `A_ub x ≤ b_ub`, `A_eq x = b_eq` — for
+    every LP (any sizes, any signs of `b`, redundant or contradictory rows) and every
+    `max_iter`. -/
+theorem status2_infeasible (P : LP K) (fuel : ℕ) (h : (linprogSimplex P fuel tol0).status = 2) :
+    ¬ ∃ x, Feasible P x := by
+  apply phase1_status2_infeasible P fuel
+  rw [linprogSimplex_status] at h
+  split_ifs at h with h1
+  · exact h
+  · exfalso
+    rcases solveTableau_status (tol0 : Tol K) true
+      (fuel - (solvePhase1 tol0 fuel (initTableau P) (initBasis P)).iters)
+      (setCriterionRow P.c P.n (solvePhase1 tol0 fuel (initTableau P) (initBasis P)).basis
+        (solvePhase1 tol0 fuel (initTableau P) (initBasis P)).T)
+      (solvePhase1 tol0 fuel (initTableau P) (initBasis P)).basis with s | s | s <;>
+      rw [s] at h <;> simp at h
+
+/-- **T1 ratio_test_complete.** On every tableau met by `linprog_simplex` (canonical, rows in
+    the span of the initial rows whose artificial block is the identity) the lexicographic
+    ratio test fails only if the entering column has no positive entry: ties are always
+    resolved by the passes over the artificial columns. -/
+theorem ratio_test_complete (P : LP K) (T : M K) (b : List ℕ) (c : ℕ)
+    (hs : Shape T (P.m + P.k) (P.n + P.m + (P.m + P.k)))
+    (hc : Canon T b (P.m + P.k) (P.n + P.m + (P.m + P.k)))
+    (hsp : RowsSpan (initTableau P) T (P.m + P.k) (P.n + P.m + (P.m + P.k)))
+    (hnf : (lexMinRatio (dropLast T) c (P.n + P.m) (0 : K) 0).1 = false) :
+    ∀ i, i < P.m + P.k → T.get i c ≤ 0 :=
+  no_unresolved_tie (initTableau P) T b _ _ (P.n + P.m) c hs hc (by omega) (initTableau_block P) hsp hnf
+
+/-- **T1 status3_unbounded.** If `linprog_simplex` (exact arithmetic) reports status 3, the
+    program is unbounded: for every bound there is a feasible point with a larger objective
+    (Phase 1 never reports status 3; in Phase 2 the points lie on the ray read off the final
+    tableau). -/
+theorem status3_unbounded (P : LP K) (fuel : ℕ) (h : (linprogSimplex P fuel tol0).status = 3) :
+    ∀ Mb : K, ∃ x, Feasible P x ∧ Mb < objective P x :=
+  linprog_status3_core P fuel h
+
+/-- **status2_farkas_certificate.** When `linprog_simplex` (exact arithmetic) reports status 2,
+    the vector the model reads off the final Phase-1 tableau (`farkas`, the `cert=` field the
+    harness verifies exactly on every infeasible case) is a Farkas certificate:
+    `y_ub ≥ 0`, `A_ubᵀy_ub + A_eqᵀy_eq ≥ 0`, `b·y < 0` — which excludes any feasible point. -/
+theorem status2_farkas_certificate (P : LP K) (fuel : ℕ)
+    (h : (linprogSimplex P fuel tol0).status = 2) :
+    FarkasCert P (fun i => (linprogSimplex P fuel (tol0 : Tol K)).cert.getD i 0) ∧
+    (∀ y, FarkasCert P y → ¬ ∃ x, Feasible P x) :=
+  ⟨linprog_farkas_core P fuel h, fun y hy => farkas_infeasible P y hy⟩
+
+/-- **status3_ray_certificate.** When `linprog_simplex` (exact arithmetic) reports status 3, the
+    point `x` and the direction `cert` the model prints (verified exactly by the harness on
+    every unbounded case) form a certificate of unboundedness: `x` feasible, `d ≥ 0`,
+    `A_ub d ≤ 0`, `A_eq d = 0`, `c·d > 0`. -/
+theorem status3_ray_certificate (P : LP K) (fuel : ℕ)
+    (h : (linprogSimplex P fuel tol0).status = 3) :
+    let res := linprogSimplex P fuel (tol0 : Tol K)
+    let x0 := fun j => res.x.getD j 0
+    let d := fun j => res.cert.getD j 0
+    Feasible P x0 ∧ (∀ j, j < P.n → 0 ≤ d j) ∧
+    (∀ i, i < P.m → ∑ j ∈ range P.n, P.Aub i j * d j ≤ 0) ∧
+    (∀ i, i < P.k → ∑ j ∈ range P.n, P.Aeq i j * d j = 0) ∧
+    0 < ∑ j ∈ range P.n, P.c j * d j :=
+  linprog_ray_core P fuel h
+
+omit [IsStrictOrderedRing K] in
+/-- **status1_iteration_limit.** Status 1 is reported only when the iteration cap was reached:
+    `num_iter ≥ max_iter` (any tolerances). -/
+theorem status1_iteration_limit (P : LP K) (fuel : ℕ) (tol : Tol K)
+    (h : (linprogSimplex P fuel tol).status = 1) : fuel ≤ (linprogSimplex P fuel tol).iters :=
+  linprog_status1_core P fuel tol h
+
+/-- the LP has an optimal solution -/
+def HasOptimum (P : LP K) : Prop :=
+  ∃ x, Feasible P x ∧ ∀ x', Feasible P x' → objective P x' ≤ objective P x
+/-- the LP has no feasible point -/
+def Infeasible (P : LP K) : Prop := ¬ ∃ x, Feasible P x
+/-- the LP has feasible points of arbitrarily large objective -/
+def Unbounded (P : LP K) : Prop := ∀ Mb : K, ∃ x, Feasible P x ∧ Mb < objective P x
+
+/-- **linprog_classification_partial.** Whenever `linprog_simplex` (exact arithmetic) does not
+    stop at the iteration cap, its status is the true class of the program: success exactly
+    when an optimum exists, status 2 exactly when the constraints are infeasible, status 3
+    exactly when the objective is unbounded.  *Partial*: that status 1 does not occur for a
+    large enough `max_iter` (termination of the lexicographic rule) is not proved; the
+    correspondence run counts status 1 (never observed with the default cap). -/
+theorem linprog_classification_partial (P : LP K) (fuel : ℕ)
+    (hcap : (linprogSimplex P fuel tol0).status ≠ 1) :
+    ((linprogSimplex P fuel tol0).status = 0 ↔ HasOptimum P) ∧
+    ((linprogSimplex P fuel tol0).status = 2 ↔ Infeasible P) ∧
+    ((linprogSimplex P fuel tol0).status = 3 ↔ Unbounded P) := by
+  have hrange := linprog_status_range P fuel (tol0 : Tol K)
+  have f0 : (linprogSimplex P fuel tol0).status = 0 → HasOptimum P := fun h =>
+    ⟨_, (status0_optimal P fuel h).1, (status0_optimal P fuel h).2.2⟩
+  have f2 : (linprogSimplex P fuel tol0).status = 2 → Infeasible P := status2_infeasible P fuel
+  have f3 : (linprogSimplex P fuel tol0).status = 3 → Unbounded P := status3_unbounded P fuel
+  have x02 : HasOptimum P → Infeasible P → False := fun ⟨x, hx, _⟩ hi => hi ⟨x, hx⟩
+  have x03 : HasOptimum P → Unbounded P → False := by
+    rintro ⟨x, _, hopt⟩ hu
+    obtain ⟨x', hx', hlt⟩ := hu (objective P x)
+    exact absurd (hopt x' hx') (not_le.mpr hlt)
+  have x23 : Infeasible P → Unbounded P → False := by
+    intro hi hu
+    obtain ⟨x, hx, _⟩ := hu 0
+    exact hi ⟨x, hx⟩
+  have hcases : (linprogSimplex P fuel tol0).status = 0 ∨ (linprogSimplex P fuel tol0).status = 2 ∨
+      (linprogSimplex P fuel tol0).status = 3 := by
+    simp only [List.mem_cons, List.not_mem_nil, or_false] at hrange
+    rcases hrange with h | h | h | h
+    · exact Or.inl h
+    · exact absurd h hcap
+    · exact Or.inr (Or.inl h)
+    · exact Or.inr (Or.inr h)
+  refine ⟨⟨f0, fun ho => ?_⟩, ⟨f2, fun hi => ?_⟩, ⟨f3, fun hu => ?_⟩⟩
+  · rcases hcases with h | h | h
+    · exact h
+    · exact absurd (f2 h) (fun hi => x02 ho hi)
+    · exact absurd (f3 h) (fun hu => x03 ho hu)
+  · rcases hcases with h | h | h
+    · exact absurd (f0 h) (fun ho => x02 ho hi)
+    · exact h
+    · exact absurd (f3 h) (fun hu => x23 hi hu)
+  · rcases hcases with h | h | h
+    · exact absurd (f0 h) (fun ho => x03 ho hu)
+    · exact absurd (f2 h) (fun hi => x23 hi hu)
+    · exact h
+
+/-! ## `minmax` -/
+
+/-- **minmax_start_canonical.** After the shift to a positive matrix and the two hand pivots
+    (`_pivoting(tableau, n, pivrow)`, `_pivoting(tableau, 0, m)`, `pivrow` = first argmax of
+    column 0) the tableau handed to `solve_tableau` is canonical for the basis the code builds,
+    has non-negative right-hand sides and is row-equivalent to the game LP
+    `min v  s.t. (A+const) y − v·1 + s = 0, 1·y = 1`. -/
+theorem minmax_start_canonical (A : ℕ → ℕ → K) (m n : ℕ) (hm : 1 ≤ m) (hn : 1 ≤ n) :
+    let T0 := mmTableau A m n
+    let T2 := mmStart A m n
+    let b0 := mmBasis m n (mmPivRow T0 m)
+    Shape T2 (m + 1) (n + 1 + m) ∧ Canon T2 b0 (m + 1) (n + 1 + m) ∧ RhsNonneg T2 (m + 1) (n + 1 + m) ∧
+    (∀ z, RowsSat T2 z (m + 1) ↔ RowsSat T0 z (m + 1)) ∧
+    (∀ z, RowsSat T2 z (m + 1) → resid T2 z (m + 1) = resid T0 z (m + 1)) := by
+  intro T0 T2 b0
+  obtain ⟨h1, h2, h3, h4, h5, _, _⟩ := mmStart_facts A m n hm hn
+  exact ⟨h1, h2, h3, h4, h5⟩
+
+/-- **T2 minmax_certificate.** If the simplex run inside `minmax` (exact arithmetic) ends with
+    status 0, the returned `(v, x, y)` is a saddle-point certificate of the matrix game `A`
+    (any real payoffs: negative, constant, duplicated rows): `x ∈ Δ_m`, `y ∈ Δ_n`,
+    `(xᵀA)_j ≥ v` for every column and `(Ay)_i ≤ v` for every row, both attained — i.e.
+    `min_j (xᵀA)_j = v = max_i (Ay)_i`, so `v` is the value of the game.
+    (`minmax` itself ignores the status; that status 0 is always reached is the termination
+    question not proved here — the correspondence run checks the status of every game.) -/
+theorem minmax_certificate (A : ℕ → ℕ → K) (m n fuel : ℕ) (hm : 1 ≤ m) (hn : 1 ≤ n)
+    (h0 : (minmax A m n fuel tol0).status = 0) :
+    let R := minmax A m n fuel (tol0 : Tol K)
+    let x := fun i => R.x.getD i 0
+    let y := fun j => R.y.getD j 0
+    ((∀ i, i < m → 0 ≤ x i) ∧ ∑ i ∈ range m, x i = 1) ∧
+    ((∀ j, j < n → 0 ≤ y j) ∧ ∑ j ∈ range n, y j = 1) ∧
+    (∀ j, j < n → R.v ≤ ∑ i ∈ range m, x i * A i j) ∧
+    (∀ i, i < m → ∑ j ∈ range n, A i j * y j ≤ R.v) ∧
+    (∃ j, j < n ∧ ∑ i ∈ range m, x i * A i j = R.v) ∧
+    (∃ i, i < m ∧ ∑ j ∈ range n, A i j * y j = R.v) := by
+  intro R x y
+  obtain ⟨hx0, hxs, hy0, hys, hcol, hrow⟩ := minmax_core A m n fuel hm hn h0
+  obtain ⟨a1, a2⟩ := saddle_attained A m n x y R.v hx0 hxs hy0 hys hcol hrow
+  exact ⟨⟨hx0, hxs⟩, ⟨hy0, hys⟩, hcol, hrow, a1, a2⟩
+
+/-- **minmax_never_unbounded.** The simplex run inside `minmax` (exact arithmetic) never ends
+    in status 3 — which matters because `minmax` does not look at the status.  (The
+    lexicographic columns `n..n+m` of the game tableau contain no identity, but together with
+    the right-hand side they do, and the first pass of the ratio test is on the right-hand
+    side, so ties are always resolved; and the game LP is bounded.)  Hence, unless the iteration
+    cap is hit, the status is 0 and `minmax_certificate` applies. -/
+theorem minmax_never_unbounded (A : ℕ → ℕ → K) (m n fuel : ℕ) (hm : 1 ≤ m) (hn : 1 ≤ n) :
+    (minmax A m n fuel tol0).status ≠ 3 ∧
+    ((minmax A m n fuel tol0).status ≠ 1 → (minmax A m n fuel tol0).status = 0) := by
+  have h3 := minmax_not_status3 A m n fuel hm hn
+  refine ⟨h3, fun h1 => ?_⟩
+  have : (minmax A m n fuel (tol0 : Tol K)).status
+      = (solveTableau (tol0 : Tol K) false (fuel - 2) (mmStart A m n)
+          (mmBasis m n (mmPivRow (mmTableau A m n) m))).status := rfl
+  rcases solveTableau_status (tol0 : Tol K) false (fuel - 2) (mmStart A m n)
+    (mmBasis m n (mmPivRow (mmTableau A m n) m)) with s | s | s
+  · rw [this]; exact s
+  · exact absurd (this.trans s) h1
+  · exact absurd (this.trans s) h3
+
+/-! ## non-vacuity: concrete programs over ℚ on which the hypotheses hold -/
+
+/-- max x+y s.t. x+y ≤ 1, −x−y ≤ −2 : infeasible -/
+def exInfeasible : LP ℚ :=
+  ⟨2, 2, 0, fnOfList [1, 1], fnOfMat [[1, 1], [-1, -1]], fnOfList [1, -2], fnOfMat [], fnOfList []⟩
+/-- max x+y s.t. x+2y ≤ 4, 3x+y ≤ 6 : optimum 14/5 at (8/5, 6/5) -/
+def exOptimal : LP ℚ :=
+  ⟨2, 2, 0, fnOfList [1, 1], fnOfMat [[1, 2], [3, 1]], fnOfList [4, 6], fnOfMat [], fnOfList []⟩
+/-- max x+y s.t. x−y ≤ 1 : unbounded -/
+def exUnbounded : LP ℚ :=
+  ⟨2, 1, 0, fnOfList [1, 1], fnOfMat [[1, -1]], fnOfList [1], fnOfMat [], fnOfList []⟩
+
+example : (linprogSimplex exInfeasible 100 tol0).status = 2 ∧
+    (linprogSimplex exInfeasible 100 tol0).cert = [1, 1] := by decide +kernel
+example : (linprogSimplex exOptimal 100 tol0).status = 0 ∧
+    (linprogSimplex exOptimal 100 tol0).x = [8/5, 6/5] ∧
+    (linprogSimplex exOptimal 100 tol0).fn = some (14/5) := by decide +kernel
+example : (linprogSimplex exOptimal 100 tol0).lambd = [2/5, 1/5] := by decide +kernel
+example : (linprogSimplex exOptimal 3 tol0).status = 1 ∧ (linprogSimplex exOptimal 3 tol0).iters = 3 := by
+  decide +kernel
+example : (linprogSimplex exUnbounded 100 tol0).status = 3 ∧
+    (linprogSimplex exUnbounded 100 tol0).cert = [1, 1] := by decide +kernel
+-- hypotheses of the tableau-level theorems hold for every initial tableau:
+example : Shape (initTableau exOptimal) 2 6 ∧ Canon (initTableau exOptimal) (initBasis exOptimal) 2 6 ∧
+    RhsNonneg (initTableau exOptimal) 2 6 :=
+  ⟨initTableau_shape exOptimal, initTableau_canon exOptimal, initTableau_rhs_nonneg exOptimal⟩
+example : (solveTableau tol0 false 100 (initTableau exOptimal) (initBasis exOptimal)).status = 0 := by
+  decide +kernel
+example : (solveTableau tol0 true 100 (setCriterionRow exUnbounded.c 2
+    (solvePhase1 tol0 100 (initTableau exUnbounded) (initBasis exUnbounded)).basis
+    (solvePhase1 tol0 100 (initTableau exUnbounded) (initBasis exUnbounded)).T)
+    (solvePhase1 tol0 100 (initTableau exUnbounded) (initBasis exUnbounded)).basis).status = 3 := by
+  decide +kernel
+example : lexMinRatio (dropLast (initTableau exOptimal)) 0 4 (0 : ℚ) 0 = (true, 1) := by decide +kernel
+/-- the code's tolerances 1e-6, 1e-7, 1e-13 (as decimal rationals) -/
+def exTol : Tol ℚ := ⟨1/1000000, 1/10000000, 1/10000000000000⟩
+example : (0 : ℚ) ≤ exTol.piv ∧
+    (solveTableau exTol false 100 (initTableau exOptimal) (initBasis exOptimal)).status = 0 := by
+  decide +kernel
+/-- matching pennies with a negative entry: value 0 at (1/2,1/2), (1/2,1/2) -/
+def exGame : ℕ → ℕ → ℚ := fnOfMat [[1, -1], [-1, 1]]
+example : (minmax exGame 2 2 100 tol0).status = 0 ∧ (minmax exGame 2 2 100 tol0).v = 0 ∧
+    (minmax exGame 2 2 100 tol0).x = [1/2, 1/2] ∧ (minmax exGame 2 2 100 tol0).y = [1/2, 1/2] := by
+  decide +kernel
 
 end QE.C04
